@@ -289,13 +289,13 @@ type Sys struct {
 	ticked  bool
 	strmN   int
 
-	mu        sync.Mutex
-	notes     []string // violations noticed inside callbacks
-	lastEv    string
-	lastWasOn string // status of the link named by the last lose event, before it
-	autoLost  []string // links that reported their own loss on Close during the last event (Contract)
+	mu          sync.Mutex
+	notes       []string // violations noticed inside callbacks
+	lastEv      string
+	lastWasOn   string   // status of the link named by the last lose event, before it
+	autoLost    []string // links that reported their own loss on Close during the last event (Contract)
 	droppedLive []string // live links closed after removal from the tables, during the last event
-	broken    string // harness could not be set up
+	broken      string   // harness could not be set up
 }
 
 func (s *Sys) note(format string, a ...any) {
